@@ -193,15 +193,16 @@ func (p *Parser) statement() (Statement, error) {
 		if err := p.consume(Return); err != nil {
 			return nil, err
 		}
+		token := *p.previous
 		if !p.atStatementEnd() {
 			expr, err := p.expression()
 			if err != nil {
 				return nil, err
 			}
-			return &StatementReturn{expr}, nil
+			return &StatementReturn{token, expr}, nil
 		}
 		p.didEndStatement = true
-		return &StatementReturn{nil}, nil
+		return &StatementReturn{token, nil}, nil
 	case If:
 		if err := p.consume(If); err != nil {
 			return nil, err
